@@ -427,6 +427,7 @@ func (r *renderer) msg(s *rstate, m *Msg) Status {
 					collect(pc.Body)
 				}
 				collect(c.Default)
+			case *Special:
 			case *Raw:
 				for _, piece := range SplitMsgText(c.Text) {
 					if piece.Tag {
